@@ -4,9 +4,12 @@ import os, sys
 sys.path.insert(0, os.path.join(os.path.dirname(os.path.abspath(__file__)), "..", "tools"))
 from nqlib import run_standard, VERIF, byte_mutations, kv
 
-RULE = ("every byte string over {CR,LF,'.','x'} up to length %s (exhaustive; read chunkings full/1/2), each also followed by "
+RULE = ("TRANSLATED SOURCE: the body of blast() is extracted from the clang-14 AST of the working tree's qmail-smtpd.c into Nq/Gen/SmtpdBlast.lean "
+        "(a Nq.CMini.Stmt) on this run, and the kernel re-checked C05_source_step/_spec/_hops against it (exhaustive evaluation over 40960 + 1280 "
+        "(state, byte) cases + independence lemma); CORRESPONDENCE: every byte string over {CR,LF,'.','x'} up to length %s (exhaustive; read chunkings full/1/2), each also followed by "
         "CRLF.CRLF and a next command; every header of up to 4 lines from an 11-line Received/Delivered-To near-miss set; seeded random "
-        "streams up to 64 KiB; for strings up to length %s followed by the terminator a failing read() after j one-byte reads for every j; "
+        "streams up to 64 KiB; for strings up to length %s followed by the terminator a read() failing with EIO/EAGAIN/EINTR/ECONNRESET after j one-byte reads for every j "
+        "(a program that keeps reading after a failed read is cut off: verdict H); "
         "run through the real qmail-smtpd.c blast() over the program's OWN ssin as its static initialiser sets it up (saferead, descriptor 0, "
         "ssinbuf and its size; the program is built as an object of its own whose data sections are restored to the load-time image before every "
         "case; ASan+UBSan build of the working tree) and the Lean model "
@@ -54,7 +57,10 @@ run_standard("C05", "Nq.Props.C05", "drv_c05", "harness/c05_blast.c", "qmail-smt
              "9 4000", "12 60000", {"quick": RULE % (9, 5, 5), "thorough": RULE % (12, 8, 8)},
              "dblast/hopsOf (Nq/SmtpIn.lean) and sblast over Nq.Substdio (Nq/SmtpIO.lean) vs qmail-smtpd.c blast() over substdi.c", alphabet=b"\r\n.x",
              builder=builder, mutate=mutate, stdin_prefixes=PREFIXES,
-             assumptions=["the value-level substdio model (Nq/Substdio.lean: the buffer is the list of unread bytes, not the array x) is tied to "
+             assumptions=["for the translated-source theorems: clang-14's AST, tools/cmini.py (one Nq.CMini constructor per AST node kind, anything else refused), Nq.CMini.run "
+                          "as the meaning of the fragment (naturals; the byte only in ==/!= tests against ASCII constants), put() = one byte to qmail_put and "
+                          "straynewline() = no return (both checked textually by the extractor)",
+                          "the value-level substdio model (Nq/Substdio.lean: the buffer is the list of unread bytes, not the array x) is tied to "
                           "substdi.c by running the real substdio under the read plans and comparing ssin.p/ssin.n/read() counts (and by C20's harness); "
                           "read() returns 0 only at the end of the stream",
                           "qmail_put is replaced by a capture of the bytes it is given (qmail.c's own discipline is C07)"])
